@@ -62,6 +62,7 @@ def main():
             if not os.path.exists(diff):
                 continue
             subprocess.run(["git", "checkout", "-q", "--", "."], cwd=wt)
+            subprocess.run(["git", "clean", "-fdq", "-e", "target"], cwd=wt)
             a = subprocess.run(["git", "apply", diff], cwd=wt, capture_output=True, text=True)
             if a.returncode != 0:
                 matrix[name] = {"error": "does not apply: " + a.stderr[-200:]}
@@ -78,6 +79,7 @@ def main():
                 print(name, "BUILD FAILED", str(e)[-200:], flush=True)
             finally:
                 subprocess.run(["git", "checkout", "-q", "--", "."], cwd=wt)
+                subprocess.run(["git", "clean", "-fdq", "-e", "target"], cwd=wt)
             json.dump(matrix, open(mpath, "w"), indent=1, sort_keys=True)
 
 
